@@ -252,6 +252,11 @@ def witness_cases():
         ("stop-sugar", gt.Spec([R("S", [A([T("Ta"), As(Ref(("n", "STOP"), ("*", None)))])])], terms)),
         ("stop-sep", gt.Spec([R("S", [A([As(Ref(("n", "Ta"), ("+", ["STOP"])))])])], terms)),
         ("stop-named", gt.Spec([R("S", [A([As(Ref(("n", "STOP")), "p", "x"), T("Ta")])])], terms)),
+        ("reserved-ref", gt.Spec([R("S", [A([T("Ta"), T("AUG")])])], terms)),
+        ("reserved-ref-sugar", gt.Spec([R("S", [A([T("Ta"), As(Ref(("n", "AUG"), ("*", None)))])])], terms)),
+        ("reserved-ref-sep", gt.Spec([R("S", [A([As(Ref(("n", "Ta"), ("+", ["AUGL"])))])])], terms)),
+        ("reserved-ref-named", gt.Spec([R("S", [A([As(Ref(("n", "AUG")), "p", "x"), T("Ta")])])], terms)),
+        ("reserved-ref-terminal", gt.Spec([R("S", [A([T("Ta"), T("AUG")])])], terms + [gt.TermRule("AUG", ("S", "x"))])),
         ("reserved-rule", gt.Spec([R("S", [A([T("Ta")])]), R("AUG", [A([T("Tb")])])], terms)),
         ("helper-capture-before", gt.Spec([R("S", [A([T("X"), T("A1")])]), R("A1", [A([T("Tb")])]),
                                            R("X", [A([As(Ref(("n", "A"), ("+", None)))])]), R("A", [A([T("Ta")])])], terms)),
